@@ -11,10 +11,11 @@
     - [op_wf]: what ComputedData provides (distinct row ids, positive lot amounts, non-negative costs, lots inside the date
       window, every fraction's lot among the in-transactions, no lot overspent (C02), the sold-% table = the fold over the
       fractions).  [compute_parts] proves the structural ones for every output of [compute]; "not overspent" is C02's theorem.
-    - C07's reconciliation (sum of final balances = amount left in the lots) where a positive balance is needed.  For histories
-      that went through the constructors and runs without a to-date cut it is C07_reconciliation_from_rows, which carries no
-      caveat about small transfer fees any more (repair of finding F8): [C15_listed_has_balance_from_rows] composes the two;
-      what it still carries is the identification of the gain/loss rows of ComputedData with the matcher's fractions.
+    - C07's reconciliation (sum of final balances = amount left in the lots) where a positive balance is needed: a hypothesis of
+      [C15_listed_has_balance]; discharged end to end, from the raw rows, by [C15_listed_has_balance_from_rows] for runs whose
+      window hides nothing (C07_reconciliation_from_rows + [C15_remaining_is_unsold]).  Since the repair of finding F8 it
+      carries no caveat about small transfer fees.  With a to-date cut the reconciliation of the cut history is not proved
+      (C07's theorem is for the whole history); the check judges those runs with the oracle.
       The KeyError of [C15_keyerror] needs an asset whose lots keep an amount that no account holds; a dust transfer fee
       can no longer produce that situation (the witness of Proofs/OpenPosExamples.v is kept, on explicitly given fractions).
     - sizes: lot cost x accumulated rounding below 4.9e-14, per-unit cost below 1e18 (RP2Decimal comparisons defined). *)
@@ -180,10 +181,33 @@ Theorem C15_listed_has_balance : forall from_ to_ c, op_wf from_ to_ c ->
   asset_listed c = true -> pos_balances c <> [].
 Proof. exact listed_has_balance. Qed.
 
-(** the reconciliation premise discharged by C07 (end to end from the raw rows, no to-date cut, no caveat about small transfer
-    fees since the repair of finding F8 - this is what stops compiling on a tree with the old rule).  Still carried: the amount
-    left in the lots read off the gain/loss rows of ComputedData = the amount left according to the matcher's fractions *)
+(** the reconciliation premise is C07's theorem.  The report reads the amount left in a lot off the gain/loss rows of ComputedData;
+    for a run whose window hides nothing ([shows_all]: no from-date, no to-date cut) that is what the matcher's fractions leave *)
+Theorem C15_remaining_is_unsold : forall period from_ to_ allow exs hos t fs c,
+  compute period from_ to_ allow exs hos t fs = Ok c -> shows_all from_ to_ t ->
+  sumZ (map (remaining (cd_gls c)) (cd_ins c)) = unsold (t_ins t) fs.
+Proof. exact remaining_is_unsold. Qed.
+
+(** ... so, end to end from the raw rows (constructors, taxable events, matcher, ComputedData) and with no hypothesis about
+    balances or about small transfer fees: a listed asset has an account with a positive balance.  This goes through
+    C07_reconciliation_from_rows and the transfer-fee rule of the source (every transfer with a fee > 0 is taxed: repair of
+    finding F8); on a tree with the old rule it stops compiling.  Non-vacuity: [listed_has_balance_instance]
+    (Proofs/OpenPosReconcile.v), the dust-fee history of finding F8 itself *)
 Theorem C15_listed_has_balance_from_rows : forall period from_ to_ allow exs hos sched h t fs c,
+  build h = Ok t ->
+  in_rows_increasing h -> amounts_positive h -> NoDup (map fst sched) ->
+  (forall evs, taxable_events t = Ok evs -> hist_same_instant_same_year evs /\ hist_sched_covers sched evs) ->
+  fractions_of gen_always_repush sched t = Ok fs ->
+  outs_consistent t -> shows_all from_ to_ t ->
+  compute period from_ to_ allow exs hos t fs = Ok c ->
+  op_wf from_ to_ c ->
+  (forall l, In l (cd_ins c) -> (qcost l * E (length (cd_gls c) + 3) < 49 # (10 ^ 15))%Q) ->
+  asset_listed c = true -> pos_balances c <> [].
+Proof. exact listed_has_balance_from_rows. Qed.
+
+(** the same for any window without a to-date cut of the balances ([no_cut]), the identification of the gain/loss rows with the
+    fractions being carried as a hypothesis (under a from-date the report's rows are a subset: outside the property's quantifier) *)
+Theorem C15_listed_has_balance_reconciled : forall period from_ to_ allow exs hos sched h t fs c,
   build h = Ok t ->
   in_rows_increasing h -> amounts_positive h -> NoDup (map fst sched) ->
   (forall evs, taxable_events t = Ok evs -> hist_same_instant_same_year evs /\ hist_sched_covers sched evs) ->
@@ -194,7 +218,7 @@ Theorem C15_listed_has_balance_from_rows : forall period from_ to_ allow exs hos
   (forall l, In l (cd_ins c) -> (qcost l * E (length (cd_gls c) + 3) < 49 # (10 ^ 15))%Q) ->
   sumZ (map (remaining (cd_gls c)) (cd_ins c)) = unsold (t_ins t) fs ->
   asset_listed c = true -> pos_balances c <> [].
-Proof. exact listed_has_balance_from_rows. Qed.
+Proof. exact listed_has_balance_reconciled. Qed.
 
 (** no lookup fails, no division by zero: the report is produced *)
 Theorem C15_no_lookup_fails : forall lang i cs s,
@@ -281,7 +305,9 @@ Print Assumptions C15_asset_cost_accuracy.
 Print Assumptions C15_row_figures_accuracy.
 Print Assumptions C15_total_positive.
 Print Assumptions C15_listed_has_balance.
+Print Assumptions C15_remaining_is_unsold.
 Print Assumptions C15_listed_has_balance_from_rows.
+Print Assumptions C15_listed_has_balance_reconciled.
 Print Assumptions C15_no_lookup_fails.
 Print Assumptions C15_keyerror.
 Print Assumptions C15_refuted_dust_fee.
